@@ -954,15 +954,24 @@ def _shallow_arg(g, acc):
             _shallow_arg(x, acc)
 
 
-def unfold_all(e, limit=10000):
+def unfold_all(e, limit=10000, seconds=90):
+    """Unfold every let atom.  Bounded in wall-clock time (a form whose full expansion is astronomically large raises Budget, which the
+    callers report as inconclusive / analysis error, instead of running for hours)."""
     n = 0
-    while True:
-        e, ch = unfold_once(e)
-        if not ch:
-            return e
-        n += 1
-        if n > limit:
-            raise Budget("unfold limit")
+    own = _DEADLINE[0] is None
+    if own:
+        _DEADLINE[0] = _time.time() + seconds
+    try:
+        while True:
+            e, ch = unfold_once(e)
+            if not ch:
+                return e
+            n += 1
+            if n > limit:
+                raise Budget("unfold limit")
+    finally:
+        if own:
+            _DEADLINE[0] = None
 
 
 # --------------------------------------------------------------------------- deciding identities
